@@ -43,6 +43,9 @@ type TaskSpec struct {
 	Env       map[string]string `json:"env,omitempty"`
 	Vars      map[string]string `json:"vars,omitempty"`
 	Dir       string            `json:"dir,omitempty"`
+	// VarExtra: extra key/value pairs put into every variation map (values are literal text, even
+	// when they look like templates)
+	VarExtra map[string]string `json:"var_extra,omitempty"`
 	// CmdText overrides the text of command i (default "sim <name> cmd <i>"); the text
 	// must still invoke `sim <name> cmd <i> ...` so that the exec is attributable.
 	CmdText map[int]string `json:"cmdtext,omitempty"`
@@ -229,7 +232,11 @@ func buildRealTask(ts *TaskSpec) *task.Task {
 		t.Condition = cmdText(ts.Name, "cond", 0)
 	}
 	for k := 0; k < ts.NVar; k++ {
-		t.Variations = append(t.Variations, map[string]string{"VS_VAR": variationName(k)})
+		m := map[string]string{"VS_VAR": variationName(k)}
+		for n, v := range ts.VarExtra {
+			m[n] = v
+		}
+		t.Variations = append(t.Variations, m)
 	}
 	t.AllowFailure = ts.Allow
 	if ts.TimeoutMS > 0 {
